@@ -1003,7 +1003,10 @@ impl<'a> Parser<'a> {
                     };
 
                     let mut args = Vec::new();
-                    if self.current.kind != TokenKind::RParen {
+                    if self.current.kind == TokenKind::Star && name.eq_ignore_ascii_case("count") {
+                        // count(*) counts rows: it is the argument-less count
+                        self.advance();
+                    } else if self.current.kind != TokenKind::RParen {
                         args.push(self.parse_expression()?);
                         while self.current.kind == TokenKind::Comma {
                             self.advance();
@@ -1992,6 +1995,26 @@ mod tests {
         {
             assert!(*distinct);
         }
+    }
+
+    #[test]
+    fn test_parse_count_star() {
+        let stmt = parse_ok("MATCH (n) RETURN count(*)");
+        let Statement::Query(Query { clauses, .. }) = stmt else {
+            panic!("Expected Query statement");
+        };
+        let Some(Clause::Return(ReturnClause {
+            items: ReturnItems::Explicit(items),
+            ..
+        })) = clauses.last()
+        else {
+            panic!("Expected RETURN clause");
+        };
+        let Expression::FunctionCall { name, args, .. } = &items[0].expression else {
+            panic!("Expected function call");
+        };
+        assert_eq!(name, "count");
+        assert!(args.is_empty());
     }
 
     #[test]
